@@ -70,6 +70,7 @@ struct Op {
 	int   fk = F_NONE, fn = -1;  // attached fault (kind, k-th eligible event inside this op)
 	int   file = 0;          // file id (serialization)
 	int   arch = 0;          // archive kind
+	int   ov   = 0;          // 1: source and destination views of the same root may overlap (C11 differential runs only)
 };
 
 struct Knobs {
@@ -184,6 +185,7 @@ inline std::string op_to_string(Op const& o) {
 	if(o.cb.n) s << " cb=" << chain_to_string(o.cb);
 	if(o.file) s << " file=" << o.file;
 	if(o.arch) s << " arch=" << o.arch;
+	if(o.ov) s << " ov=" << o.ov;
 	if(o.fk != F_NONE) s << " f=" << fault_name(o.fk) << ':' << o.fn;
 	return s.str();
 }
@@ -219,6 +221,7 @@ inline bool parse_op(std::string const& line, Op& o, std::string& err) {
 		else if(k == "v") o.v = std::atoll(val.c_str());
 		else if(k == "file") o.file = std::atoi(val.c_str());
 		else if(k == "arch") o.arch = std::atoi(val.c_str());
+		else if(k == "ov") o.ov = std::atoi(val.c_str());
 		else if(k == "x") {
 			o.nx          = 0;
 			std::size_t p = 0;
